@@ -32,8 +32,9 @@ TMPDIR_FINDING = 'C20-tmp-dir-in-source'
 PIPE = [P('Numbers', params=[par('scale', default=1), par('src', default='s')]),
         P('Shards', inputs=[inp('Numbers')], data='dir'),
         P('Lines', inputs=[inp('Numbers')], data='gen', params=[par('n', default=3)]),
-        P('Memo', inputs=[inp('Lines')], data='mem')]
-NAMES = ['numbers', 'shards', 'lines']
+        P('Memo', inputs=[inp('Lines')], data='mem'),
+        P('Nothing', inputs=[inp('Numbers')], data='gen0')]
+NAMES = ['numbers', 'shards', 'lines', 'nothing']
 
 
 def bounds(tier):
@@ -71,7 +72,7 @@ def mounts_harness(case):
                 json.dump({'uses': [f'{d}/sub1.json as n1', f'{d}/sub2.json as n2']}, f)
             context = {'for_namespaces': {'n1': {'n': 4}}} if with_context else None
             src, dst = fs.path('/data'), fs.path('/dst')
-            names = [f'{ns}::{t}' for ns in ('n1', 'n2') for t in NAMES]
+            names = [f'{ns}::{t}' for ns in ('n1', 'n2') for t in NAMES[:3]]
             mask = ctx.choice('computed', 8)
             computed = [names[j] for j in ((0, 3), (1, 4), (2, 5), (0, 4), (3,), (2,), (1, 2, 3, 4), ())[mask]]
             info = {'scenario': 'two mountings', 'context': context, 'computed': computed}
@@ -122,8 +123,8 @@ def make_harness(case, tier):
                 json.dump(data, f)
             context = {'scale': 10} if with_context else None
             src, dst = fs.path('/data'), fs.path('/dst')
-            mask = ctx.choice('computed', 8)
-            computed = [NAMES[j] for j in range(3) if mask >> j & 1]
+            mask = ctx.choice('computed', 16)
+            computed = [NAMES[j] for j in range(4) if mask >> j & 1]
             dry = ctx.flag('dry')
             repeat = ctx.flag('repeat')
             info = {'config': cname, 'context': context, 'global_vars': gv, 'computed': computed, 'dry': dry, 'repeat': repeat}
